@@ -83,7 +83,7 @@ class Subcheck:
   cases: Optional[Callable[[str], list]] = None
   examples: dict = dataclasses.field(default_factory=lambda: {'quick': 50, 'thorough': 500})
   shards: dict = dataclasses.field(default_factory=lambda: {'quick': 1, 'thorough': 1})
-  wall: dict = dataclasses.field(default_factory=lambda: {'quick': 120.0, 'thorough': 1200.0})
+  wall: dict = dataclasses.field(default_factory=lambda: {'quick': 400.0, 'thorough': 1800.0})
   rule: str = ''
   env: dict = dataclasses.field(default_factory=dict)   # extra environment for the worker
   raises_are_violations: bool = False
